@@ -215,6 +215,11 @@ def run_case(prog, res=None):
         final_adj = d[-1]["pre"] if d else None
     if knn_adj is None or final_adj is None:
         return viol(prog, "the training never estimated densities / never built arcs", "no arcs")
+    Dm = K.dist_matrix(prog, m)
+    kth = []
+    for a in range(n):
+        ds = sorted(Dm[a][b] for b in range(n) if b != a)
+        kth.append(ds[min(obs["best_k"], n - 1) - 1])
     lab_field = "cluster" if unsup else "plabel"
     roots = [i for i in range(n) if nodes[i]["pred"] == -1]
     for i in range(n):
@@ -247,6 +252,13 @@ def run_case(prog, res=None):
                 return viol(prog, "sample %d was conquered by %d which is neither one of whose k "
                             "nearest neighbours it is (%s) nor a same-density sample having it as "
                             "neighbour" % (i, p, knn_adj[p]), "pred not a graph neighbour")
+            # independently of any adjacency the library kept: i must lie within the best_k-th
+            # nearest-neighbour distance of p (or symmetrically, on a density plateau)
+            kb = obs["best_k"]
+            if not (Dm[p][i] <= kth[p] or (Dm[i][p] <= kth[i] and nodes[p]["density"] == nd["density"])):
+                return viol(prog, "sample %d was conquered by %d, but d = %r exceeds the distance %r of "
+                            "%d's %d-th nearest neighbour (best_k = %d): not an arc of the k-NN graph"
+                            % (i, p, Dm[p][i], kth[p], p, kb, kb), "pred not within the k-NN radius")
             want = min(nodes[p]["cost"], nd["density"])
             if nd["cost"] != want:
                 return viol(prog, "sample %d has cost %r, expected min(cost(pred)=%r, density=%r)"
